@@ -250,6 +250,10 @@ def random_decl(rng, small=True):
     names = ["a", "b", "ab", "out", "no-a", "x-y", "verbose", "n"]
     letters = ["a", "b", "o", "v", "n", "x"]
     r0 = rng.random()
+    if rng.random() < 0.15:
+        # names and letters with bytes >= 0x80 (signed char comparisons, UTF-8 in names); one-byte letters only
+        names = ["gr\xf6\xdfe", "\xe9t\xe9", "a", "out", "\xfcber", "x-y", "verbose", "n\xe4"]
+        letters = ["\xfc", "\xe4", "o", "v", "\xdf", "x"]
     if r0 < 0.12:
         letters = ["1", "0", "5", "e", "x", "."]          # digit short names: tokens such as -1, -15, -1e5, -0x5 are bundles, not numbers
     elif r0 < 0.2:
